@@ -61,6 +61,25 @@ Proof.
   assert (two64 <> 0) by (unfold two64; lia). specialize (H H0). lia.
 Qed.
 
+Lemma wrap64_add_mul z k : wrap64 (z + k * two64) = wrap64 z.
+Proof.
+  unfold wrap64. replace (z + k * two64 + two63) with (z + two63 + k * two64) by lia.
+  rewrite Z.mod_add; [reflexivity|]. unfold two64; lia.
+Qed.
+
+(* Go's modular arithmetic: an intermediate overflow is harmless when the final value fits *)
+Lemma wrap64_wrap_sub a b : wrap64 (wrap64 a - b) = wrap64 (a - b).
+Proof.
+  destruct (wrap64_spec a) as [k ->].
+  replace (a + k * two64 - b) with (a - b + k * two64) by lia. apply wrap64_add_mul.
+Qed.
+
+Lemma wrap64_wrap_add a b : wrap64 (wrap64 a + b) = wrap64 (a + b).
+Proof.
+  destruct (wrap64_spec a) as [k ->].
+  replace (a + k * two64 + b) with (a + b + k * two64) by lia. apply wrap64_add_mul.
+Qed.
+
 Lemma wrap64_cases z : in_i64 (wrap64 z) /\ exists k, wrap64 z = z + k * two64.
 Proof. split; [apply wrap64_range | apply wrap64_spec]. Qed.
 
